@@ -198,7 +198,18 @@ def run(ctx, rep):
     qobj = Obj('Q', typ=QuantifiedT, unquantify=lambda c_: ('UNQ', c_))
     other = Obj('notQ', typ=OperatedT)
     cst = Obj('const')
+    it.g.setdefault('LexicalAbcMeta', Obj('LexicalAbcMeta', __call__=Obj('metacall', _cache={})))      # (the shared item cache, should the code consult it)
     r1_, r2_ = it.safe(frs, [cst, qobj]), it.safe(frs, [cst, other])
+    # a second quantified sentence with the same body and another bound variable, right after the first: its own instance
+    shared_body = Obj('shared-body')
+    qa = Obj('Qx', typ=QuantifiedT, sentence=shared_body, variable='x', unquantify=lambda c_: ('UNQ-x', c_))
+    qb = Obj('Qy', typ=QuantifiedT, sentence=shared_body, variable='y', unquantify=lambda c_: ('UNQ-y', c_))
+    seq = [it.safe(frs, [cst, qa]), it.safe(frs, [cst, qb]), it.safe(frs, [cst, qa])]
+    ok_seq = seq == [('UNQ-x', cst), ('UNQ-y', cst), ('UNQ-x', cst)]
+    rep.instance(R1, ok=ok_seq, nontrivial='Constant.__rshift__ sequence')
+    if not ok_seq:
+        rep.finding(R1, 'C15.R1/Constant.__rshift__/sequence', m.loc(LEX, frs), 'Constant.__rshift__',
+                    f'c >> (Qx body), c >> (Qy body), c >> (Qx body) with one body and two bound variables give {seq!r}; each must be that sentence\'s own unquantify(c)')
     ok = r1_ == ('UNQ', cst) and r2_ is NotImplemented
     rep.instance(R1, ok=ok, nontrivial='Constant.__rshift__')
     if not ok:
